@@ -446,7 +446,10 @@ def oracle(case, out):
         if out[1] == 4:
             return "the harness process died (abort / signal) while running this %s" % what
         return "panic (code %d) while running this %s" % (out[1], what)
-    if not out or out[0] != 0 or len(out) < 2:
+    if not out:
+        return ("the harness printed nothing for this %s before the runner's timeout killed it (a stall that the "
+                "harness' own 25 s watchdog did not get to report: the runtime thread itself was stuck)" % what)
+    if out[0] != 0 or len(out) < 2:
         return "the harness printed no transcript for this %s (output starts with %r)" % (what, out[:4])
     n = out[1]
     if len(out) != 2 + 7 * n:
